@@ -29,7 +29,7 @@ ASSUMPTIONS = [
 COMPONENTS = {"real": ["TradingEnvXY (data preparation, _make_timesteps, _make_transmitter)", "State", "Transmitter", "TradingEnv", "sklearn transformers", "pandas_market_calendars"],
               "harness": ["table generator with data faults"], "stub": []}
 PROBE_FLOORS = {"long_window_mid_data_start": 5, "holiday_inside_range": 18, "x_nan_cells": 13, "x_missing_rows": 11, "window_gt_1": 24, "stride_used": 12,
-                "y_nan_cells": 13, "rate_given": 16, "folds_used": 10, "x_starts_late": 9, "rate_zero_or_negative": 10}
+                "y_nan_cells": 13, "rate_given": 16, "folds_used": 10, "x_starts_late": 9, "rate_zero_or_negative": 10, "earlier_episode_on_same_instance": 10, "earlier_episode_on_other_fold": 3}
 HOL = {}
 
 
@@ -63,7 +63,12 @@ def generate(rng, i):
         fold = rng.choice(["train", "test", "test"])      # 'test' starts mid-data: the window must be warmed up from history
     ny = len(tb["ycols"])
     acts = [[round(rng.uniform(-0.3, 0.5), 4) for _ in range(ny)] for _ in range(7)]
-    return {"kind": "xy", "tables": tb, "kwargs": kw, "fold": fold, "actions": acts, "np_seed": rng.randrange(2 ** 31)}
+    prior = None
+    if rng.random() < (0.5 if kw.get("folds") else 0.15):
+        # an earlier episode on the same environment instance (on another fold if there are folds), abandoned after
+        # a few steps or played to its end: what the judged episode serves must not depend on it
+        prior = {"fold": rng.choice(sorted(kw["folds"])) if kw.get("folds") else None, "max_steps": rng.choice([0, 1, 3, None])}
+    return {"kind": "xy", "tables": tb, "kwargs": kw, "fold": fold, "actions": acts, "np_seed": rng.randrange(2 ** 31), "prior": prior}
 
 
 def execute(scenario):
@@ -78,6 +83,15 @@ def execute(scenario):
             # legitimate refusals: not enough data for the window / empty ranges
             return {"violations": [], "digest": core.digest(["build", type(e).__name__]), "probes": {"build_refused": 1}, "faults": {},
                     "stats": {"ops": 1, "build_refused": 1}, "trace": "refused:" + type(e).__name__, "nontrivial": False}
+        prior = scenario.get("prior")
+        if prior:
+            try:
+                xy.run_episode(env, scenario["actions"], fold=prior.get("fold"), np_seed=scenario.get("np_seed", 0) + 1, max_steps=prior.get("max_steps"))
+                probe("earlier_episode_on_same_instance")
+                if prior.get("fold") != scenario.get("fold"):
+                    probe("earlier_episode_on_other_fold")
+            except Exception:
+                pass        # a refused earlier reset leaves the judged episode to be served as usual
         try:
             recs = xy.run_episode(env, scenario["actions"], fold=scenario.get("fold"), np_seed=scenario.get("np_seed", 0))
         except Exception as e:
